@@ -401,6 +401,16 @@ class Verdict:
         return 1 if self._nv else 0
 
 
+class SubVerdict(Verdict):
+    """Verdict for running another property's check as a sub-step: collects its
+    violations (after that property's own known-finding matching) without
+    writing its evidence file; the caller folds what belongs to it."""
+
+    def finish(self, level, explanation=""):
+        self.level = level
+        return 1 if self._nv else 0
+
+
 def chunks(xs, n):
     for i in range(0, len(xs), n):
         yield xs[i:i + n]
